@@ -7,15 +7,15 @@ namespace Psutil.C06
 open Spec
 
 /-- the configuration of the surrounding code for which the theorems hold, EXCEPT the `S_ISCHR`
-    test of get_terminal_map, which `XCfg.Good` pins on top (the lemmas below say what holds for
-    either value of `tmapChecksChr`) -/
+    test of get_terminal_map and the way create_time() chooses its boot time, which `XCfg.Good` pins on
+    top (the lemmas below say what holds for either value of `tmapChecksChr`; Props/C06.lean says what
+    holds for the `or` setting of `createBoot`) -/
 structure XCfg.GoodBase (x : XCfg) : Prop where
   tmapGlobs : x.tmapGlobs = ["/dev/tty*", "/dev/pts/*"]
   tmapSkipsVanished : x.tmapSkipsVanished = true
   tmapMemoized : x.tmapMemoized = true
   btimeKey : x.btimeKey = Spec.keyBtime
   btimeIdx : x.btimeIdx = 1
-  createUsesCachedBoot : x.createUsesCachedBoot = true
   threadsSorts : x.threadsSorts = true
   threadsSkipsVanished : x.threadsSkipsVanished = true
   threadsChecksAlive : x.threadsChecksAlive = true
@@ -24,9 +24,26 @@ structure XCfg.GoodBase (x : XCfg) : Prop where
   nameExtendMin : x.nameExtendMin = Spec.commMax
   nameExtendChecksPrefix : x.nameExtendChecksPrefix = true
 
-/-- the configuration of the code as it is (since 9df9f82 only character devices enter the terminal map) -/
+/-- the configuration of the code as it is (since 9df9f82 only character devices enter the terminal map;
+    since 29257b1 create_time() uses whatever BOOT_TIME is pinned, 0.0 included) -/
 structure XCfg.Good (x : XCfg) : Prop extends XCfg.GoodBase x where
   tmapChecksChr : x.tmapChecksChr = true
+  createBoot : x.createBoot = .isNotNone
+
+/-! ## which cached boot time create_time() accepts -/
+
+theorem cachedBoot_none (x : XCfg) : cachedBoot x none = none := by
+  unfold cachedBoot; cases x.createBoot <;> rfl
+
+theorem cachedBoot_isNotNone (x : XCfg) (h : x.createBoot = .isNotNone) (c : Option Rat) : cachedBoot x c = c := by
+  unfold cachedBoot; rw [h]
+
+theorem cachedBoot_or_zero (x : XCfg) (h : x.createBoot = .or) : cachedBoot x (some 0) = none := by
+  unfold cachedBoot; rw [h]; simp
+
+theorem cachedBoot_or_nonzero (x : XCfg) (h : x.createBoot = .or) (b : Rat) (hb : b ≠ 0) :
+    cachedBoot x (some b) = some b := by
+  unfold cachedBoot; rw [h]; simp [hb]
 
 /-! ## terminal map -/
 
